@@ -69,6 +69,18 @@ def wrapped(x):
     return x
 
 
+def plain_deco(fn):
+    """a decorator that does not use functools.wraps: the decorated name is bound to `plain_deco.<locals>.inner_wrapper`"""
+    def inner_wrapper(*a, **k):
+        return fn(*a, **k)
+    return inner_wrapper
+
+
+@plain_deco
+def shadowed(x):
+    return x
+
+
 class Gauge:
     """descriptors stacked on a functools.wraps-style decorator: the tracer records the wrapped function"""
 
